@@ -65,8 +65,8 @@ CHECKS = {
         design="DESIGN.md §4 C07",
     ),
     "C13": dict(
-        rules="R13.1-R13.16",
-        what="blockers never reach the ignore logic; suppressed-by-ignore implies recorded-as-used, only for enabled codes, and nothing else records; decision order of is_error_code_enabled (explicit disable, explicit enable, parent disabled); who may append to the error map; exit status truth table over (message, non-note, blockers, install override) and its data-flow to sys.exit; generators of diagnostics that bypass is_error_code_enabled are guarded by their own code not being disabled (truth table over the guard's atoms); the only-once slot is claimed only by recorded messages; notes next to coded errors carry a code; the ErrorWatcher stack sees every error before any code/ignore decision; the line spans that decide where an ignore has effect and which ignores are exempt from the unused report include the last line of the node (R13.15); the Options attributes Errors.is_error_code_enabled reads are part of the cache key (R13.16)",
+        rules="R13.1-R13.18",
+        what="blockers never reach the ignore logic; suppressed-by-ignore implies recorded-as-used, only for enabled codes, and nothing else records; decision order of is_error_code_enabled (explicit disable, explicit enable, parent disabled); who may append to the error map; exit status truth table over (message, non-note, blockers, install override) and its data-flow to sys.exit; generators of diagnostics that bypass is_error_code_enabled are guarded by their own code not being disabled (truth table over the guard's atoms); the only-once slot is claimed only by recorded messages; notes next to coded errors carry a code; the ErrorWatcher stack sees every error before any code/ignore decision; the line spans that decide where an ignore has effect and which ignores are exempt from the unused report include the last line of the node (R13.15); the Options attributes Errors.is_error_code_enabled reads are part of the cache key (R13.16); non-blocking diagnostics build.py reports on behalf of a State are filtered by that State's options (R13.17); both ignore-comment generators compute 'unused ignores are reported' from the same inputs (R13.18)",
         quant="programs x ignore placements x code selections",
         technique="CFG must-pass / reachability, guard chains, who-may-call, abstract evaluation of the exit-status assignments",
         note="Exactness of the delta for every program (origin spans, duplicate removal, note attachment) is value-level and not decided.",
